@@ -24,7 +24,7 @@ impl Adapter for CacheAd {
     }
     fn gen_cfg(&mut self, rng: &mut Rng, size: Size) -> Value {
         let nk = if size == Size::Quick { 3 + rng.below(4) } else { 4 + rng.below(9) };
-        json!({"max": 1 + rng.below(nk.min(6)), "ttl": *rng.pick(&[-1i64, -1, 2, 5, 9]), "pol": *rng.pick(&["lru", "lfu", "fifo"]), "shared": rng.below(2), "nkeys": nk})
+        json!({"max": 1 + rng.below(nk.min(6)), "ttl": *rng.pick(&[-1i64, -1, 2, 5, 9]), "pol": *rng.pick(&["lru", "lfu", "fifo"]), "shared": rng.below(2), "nkeys": nk, "ctor": rng.below(2)})
     }
     fn build(&mut self, cfg: &Value, sim: &mut Sim) {
         let max = cfg["max"].as_u64().unwrap() as usize;
@@ -39,7 +39,17 @@ impl Adapter for CacheAd {
         let cnt: Arc<[AtomicU64; 3]> = Arc::new([AtomicU64::new(0), AtomicU64::new(0), AtomicU64::new(0)]);
         let (h, m, e) = (cnt.clone(), cnt.clone(), cnt.clone());
         let (h2, m2, e2) = (cnt.clone(), cnt.clone(), cnt.clone());
-        if cfg["shared"].as_u64().unwrap() == 1 {
+        if cfg["shared"].as_u64().unwrap() == 1 && cfg["ctor"].as_u64().unwrap_or(0) == 1 {
+            // the other way to a shared store: CacheLayer::shared()
+            let (h3, m3, e3) = (cnt.clone(), cnt.clone(), cnt.clone());
+            let mut b = CacheLayer::<Req, u32>::builder().max_size(max).eviction_policy(pol).key_extractor(|r: &Req| r.key)
+                .on_hit(move || { h3[0].fetch_add(1, Ordering::SeqCst); }).on_miss(move || { m3[1].fetch_add(1, Ordering::SeqCst); }).on_eviction(move || { e3[2].fetch_add(1, Ordering::SeqCst); });
+            if ttl >= 0 {
+                b = b.ttl(Duration::from_millis(ttl as u64));
+            }
+            let layer = b.build().shared::<Resp>();
+            self.svcs = vec![layer.layer(inner.clone()), layer.layer(inner)];
+        } else if cfg["shared"].as_u64().unwrap() == 1 {
             let mut b = SharedCacheLayer::<Req, u32, Resp>::builder().max_size(max).eviction_policy(pol).key_extractor(|r: &Req| r.key)
                 .on_hit(move || { h[0].fetch_add(1, Ordering::SeqCst); }).on_miss(move || { m[1].fetch_add(1, Ordering::SeqCst); }).on_eviction(move || { e[2].fetch_add(1, Ordering::SeqCst); });
             if ttl >= 0 {
@@ -47,6 +57,8 @@ impl Adapter for CacheAd {
             }
             let layer = b.build();
             self.svcs = vec![layer.layer(inner.clone()), layer.layer(inner)];
+        } else if cfg["shared"].as_u64().unwrap() == 2 {
+            unreachable!()
         } else {
             let mut b = CacheLayer::<Req, u32>::builder().max_size(max).eviction_policy(pol).key_extractor(|r: &Req| r.key)
                 .on_hit(move || { h2[0].fetch_add(1, Ordering::SeqCst); }).on_miss(move || { m2[1].fetch_add(1, Ordering::SeqCst); }).on_eviction(move || { e2[2].fetch_add(1, Ordering::SeqCst); });
